@@ -77,7 +77,9 @@ func TestVerifReplay(t *testing.T) {
 	ob, _ := json.MarshalIndent(ov, "", " ")
 	ovPath := filepath.Join(dir, "overlay.json")
 	os.WriteFile(ovPath, ob, 0644)
-	cmd := exec.Command("timeout", "300", "go", "test", "-vet=off", "-count=1", "-overlay", ovPath, "-run", "TestVerifReplay", "-v", pkgPat)
+	sh := fmt.Sprintf("#!/bin/sh\n# native replay of a solver counterexample against the real build; exit 0 = reproduced\ncd %s && GOFLAGS=-mod=mod GOPROXY=off GOSUMDB=off GOTOOLCHAIN=local VERIF_ASSIGNMENT=%s timeout 600 go test -vet=off -count=1 -overlay %s -run TestVerifReplay -v %s\n", modDir, cePath, ovPath, pkgPat)
+	os.WriteFile(filepath.Join(dir, "replay.sh"), []byte(sh), 0755)
+	cmd := exec.Command("timeout", "600", "go", "test", "-vet=off", "-count=1", "-overlay", ovPath, "-run", "TestVerifReplay", "-v", pkgPat)
 	cmd.Dir = modDir
 	cmd.Env = append(os.Environ(), "GOFLAGS=-mod=mod", "GOPROXY=off", "GOSUMDB=off", "GOTOOLCHAIN=local", "VERIF_ASSIGNMENT="+cePath)
 	out, err := cmd.CombinedOutput()
